@@ -30,7 +30,7 @@ mvars == <<rvars, dvars, obs, hist, quiet, nops>>
 
 H0 == 100
 Init0 == 1000000
-NoCp == [parts |-> {}, total |-> 0, complete |-> FALSE, shown |-> 0]
+NoCp == [parts |-> {}, total |-> 0, complete |-> FALSE, shown |-> 0, sp |-> {}]
 
 MCInit ==
   /\ RInit
@@ -103,15 +103,15 @@ MPart(a, sec, tot, cl) ==
            ELSE IF cp.parts = {} THEN
              /\ part' = Append(part, p)
              /\ IF a >= tot
-                THEN /\ cp' = [parts |-> {i}, total |-> tot, complete |-> TRUE, shown |-> a]
+                THEN /\ cp' = [parts |-> {i}, total |-> tot, complete |-> TRUE, shown |-> a, sp |-> {i}]
                      /\ seen' = TRUE
                      /\ Emit(pre \o <<[t |-> "claimable", amt |-> a, deadline |-> cltv - BUF]>>)
-                ELSE /\ cp' = [parts |-> {i}, total |-> tot, complete |-> FALSE, shown |-> 0]
+                ELSE /\ cp' = [parts |-> {i}, total |-> tot, complete |-> FALSE, shown |-> 0, sp |-> {}]
                      /\ Emit(pre) /\ UNCHANGED seen
            ELSE IF tot # cp.total \/ have >= cp.total THEN failNew      \* check_merge / already claimable
            ELSE /\ part' = Append(part, p)
                 /\ IF have + a >= cp.total
-                   THEN /\ cp' = [cp EXCEPT !.parts = @ \cup {i}, !.complete = TRUE, !.shown = have + a]
+                   THEN /\ cp' = [cp EXCEPT !.parts = @ \cup {i}, !.complete = TRUE, !.shown = have + a, !.sp = cp.parts \cup {i}]
                         /\ seen' = TRUE
                         /\ LET m == MinC(cp.parts) IN
                            Emit(pre \o <<[t |-> "claimable", amt |-> have + a, deadline |-> (IF cltv < m THEN cltv ELSE m) - BUF]>>)
@@ -151,7 +151,7 @@ MBlock(n) ==
 \* longer the one that was shown nothing is claimed (and what is left of it is forgotten)
 MClaim ==
   /\ Idle /\ seen /\ ~answered
-  /\ StaleClaim \/ cp.parts = {} \/ cp.shown > 0
+  /\ StaleClaim \/ cp.parts \subseteq cp.sp      \* every HTLC held for the hash was part of what was shown
   /\ answered' = TRUE
   /\ IF cp.parts = {} THEN UNCHANGED <<part, cp, got>> /\ Emit(<<[t |-> "claimcall"]>>)
      ELSE IF cp.complete /\ SumP(cp.parts) = cp.shown
